@@ -53,8 +53,14 @@ Definition jskey (v : option val) : option str :=
   match v with Some x => to_js_string x | None => None end.
 
 Section Denote.
+  Variable scopes : list scope_var.           (* generation-time scopes (for items, slot values, modules) *)
+  Variable sval : str -> upt.                 (* values of the scopes' update-path variables, by name *)
   Variable root : str -> upt.                 (* U, an object in update mode *)
   Variable hv : str -> option val.            (* values of the hoisted variables *)
+
+  (* the tree a scope variable is guarded by: its update-path variable, `undefined` when it has none *)
+  Definition scope_tree (i : nat) : upt :=
+    match sv_upt (scope_nth scopes i) with Some x => sval x | None => UNone end.
 
   Definition zstep (u : upt) (t : ptail) : upt :=
     match t with
@@ -78,7 +84,8 @@ Section Denote.
     match h with
     | HIdent x => root x
     | HCond i t f => if hv_truthy i then upres t else upres f
-    | HScope _ | HObj _ | HArr _ _ => UAll      (* outside the fragment: conservative *)
+    | HScope i => scope_tree i
+    | HObj _ | HArr _ _ => UAll                 (* outside the fragment: conservative *)
     end
   with upres (r : pres) : upt :=
     match r with
@@ -95,10 +102,11 @@ Section Denote.
   Definition guard_den (r : pres) : bool := utruthy (upres r).
 End Denote.
 
-(* the fragment of binding expressions the soundness theorem covers: data fields, member and
+(* the fragment of binding expressions the soundness theorem covers: data fields, scope variables, member and
    index access, literals, unary and binary operators (including ??), conditionals *)
 Inductive frag : expr -> Prop :=
   | fr_field : forall x, frag (EField x)
+  | fr_scope : forall i, frag (EScope i)
   | fr_undef : frag EUndef
   | fr_null : frag ENull
   | fr_str : forall s, frag (EStr s)
